@@ -20,9 +20,12 @@ META = dict(
                'pairs over all classes are duplicate-free and are exactly the transitions PSi -> PSi+jump with both ends '
                'non-zero states (omega1) / PSi -> -PSi with -PSi a jump (omega2): every transition in exactly one class, '
                'exactly once; the stored dx is the vacancy displacement dx(PSf)-dx(PSi) (= dx of the jump), -dx(PSi) for '
-               'exchange; pruning keeps exactly the classes with an end in the thermodynamic set. The group hypotheses are '
-               'discharged per run on the real crystal by the verified decidable test of C24; the implementation is tied '
-               'by differential runs on StarSet and on real VacancyMediated objects plus direct oracles.',
+               'exchange; the recorded jump type is the index of the jump class carrying the generating pair; pruning keeps '
+               'exactly the classes with an end in the thermodynamic set (vm_exact_of_tests: both networks of '
+               'VacancyMediated.generate from the decidable tests alone). All hypotheses (group, crystal symmetry, jump list '
+               'valid / G-closed / reversal-closed) are decidable tests with soundness theorems, evaluated by the driver on '
+               'the real crystal and network on every run; the implementation is tied by differential runs on StarSet and '
+               'on real VacancyMediated objects plus direct oracles.',
     level_note='Trusted: Lean kernel + standard axioms; harness extraction of ops / rational data (as C24). Modelled, not '
                'verified: identification of a state index with the state (states are distinct: C24), Python None==None '
                'comparison, numpy float dx (compared to the exact value within 1e-9*scale).',
